@@ -87,7 +87,7 @@ def tlc(module, cfg_text=None, cfg=None, workers=None, simulate=None, depth=None
     else:
         cfg_path = os.path.join(SPEC, cfg or (module + '.cfg'))
     meta = os.path.join(d, 'meta-' + tag)
-    cmd = ['java', '-XX:+UseParallelGC', '-Xss64m', '-Xmx8g']
+    cmd = ['java', '-XX:+UseParallelGC', '-Xss64m', '-Xmx8g', '-Djava.io.tmpdir=' + d]
     if deque:
         cmd.append('-Dtlc2.tool.queue.IStateQueue=StateDeque')
     cmd += ['-cp', JAR, 'tlc2.TLC', '-metadir', meta, '-noGenerateSpecTE', '-config', cfg_path]
@@ -153,9 +153,11 @@ def tlc(module, cfg_text=None, cfg=None, workers=None, simulate=None, depth=None
     return res
 
 
-def require_ok(res, what=None):
+def require_ok(res, what=None, allow_violated=False):
     """A spec-level failure (invariant violated on the model itself, TLC error) is a machinery
-    failure unless the caller handles res.violated itself."""
+    failure unless the caller handles res.violated itself (allow_violated=True)."""
+    if res.violated and not allow_violated:
+        raise MachineryError('%s: the model itself violates %s\n%s' % (what or res.name, res.violated, res.out[-2500:]))
     if res.error or (res.rc not in (0,) and res.violated is None):
         raise MachineryError('%s: TLC failed rc=%s\n%s' % (what or res.name, res.rc, (res.error or res.out[-3000:])))
     return res
